@@ -251,6 +251,17 @@ def r4(ck, F):
         sorts = [t for bb, t in pb.calls() if t["callee"].get("method") in ("sort_by_key", "sort_unstable_by_key", "sort_by", "sort")]
         takes = [t for bb, t in pb.calls() if t["callee"].get("method") == "take"]
         rem = [bb for bb, t in pb.calls() if t["callee"].get("path") == "std::fs::remove_file"]
+        if not rem:
+            # the removal loop written as `.take(n).for_each(|(file, _)| remove_file(..))`: the site that matters for the
+            # ordering is the for_each call, provided its closure is the only place that removes
+            crem = [c for c in F.closures_of(pb) if any(t["callee"].get("path") == "std::fs::remove_file" for bb, t in c.calls())]
+            fe = [(bb, t) for bb, t in pb.calls() if t["callee"].get("method") == "for_each"]
+            if len(crem) == 1 and len(fe) == 1:
+                o = pb.origin(fe[0][1]["argv"][1])
+                cd = o[1].get("agg", {}).get("closure") if o[0] == "agg" else (o[1].get("closure") if o[0] == "const" else None)
+                recv = pb.origin(fe[0][1]["argv"][0])
+                if cd == crem[0].path and recv[0] == "call" and recv[2]["callee"].get("method") == "take":
+                    rem = [fe[0][0]]
         ok = len(sorts) == 1 and len(takes) == 1 and len(rem) == 1
         why = "expected one sort, one take(n) from the front and one remove_file site (calls: %s)" % names
         if ok:
@@ -260,7 +271,9 @@ def r4(ck, F):
             if not (src[0] == "call" and src[2]["callee"].get("method") == "iter"):
                 ok, why = False, "removal does not iterate the sorted list from its front (%s)" % (src[2]["callee"].get("method") if src[0] == "call" else src[0])
             # sort key closure returns the creation time (field 1 of the tuple)
-            kc = [c for c in F.closures_of(pb) if c.path.endswith("{closure#1}")]
+            ko = pb.origin(sorts[0]["argv"][1]) if len(sorts[0]["argv"]) > 1 else ("none",)
+            kd = ko[1].get("agg", {}).get("closure") if ko[0] == "agg" else (ko[1].get("closure") if ko[0] == "const" else None)
+            kc = [c for c in F.closures_of(pb) if c.path == kd]
             if ok and kc:
                 r = [show(p.ret) for p in PathEval(kc[0]).run() if p.end == "return"]
                 if not r or ".1" not in r[0]:
